@@ -15,7 +15,17 @@ def msg_case(payload, p1, p2):
     assert 0 <= p1 < len(payload) and 0 <= p2 < len(payload)
     return 'B %d %d %s' % (p1, p2, bytes(payload).hex())
 
+def range_case(which, lo, count):
+    """`count` consecutive raw values through a public scaling function (lon, lat, sog, cog)"""
+    return 'F %s %d %d' % (which, lo, count)
+
+def size(case_line):
+    return int(case_line.split(' ')[3]) if case_line.startswith('F ') else 65536
+
 def expand(case_line):
+    if case_line.startswith('F '):
+        _, which, lo, count = case_line.split(' ')
+        return ['f %s %d' % (which, r) for r in range(int(lo), int(lo) + int(count))]
     if case_line.startswith('B '):
         _, p1, p2, hx = case_line.split(' ')
         b = bytearray(bytes.fromhex(hx)); out = []
@@ -50,7 +60,7 @@ def adjacent(line, decode=0, fix=1, gaps=(1,), lo=1, hi=None):
     return [case(line, i, i + g, decode, fix) for g in gaps for i in range(lo, hi - g)]
 
 def is_sweep(x):
-    return x.startswith(('A ', 'B '))
+    return x.startswith(('A ', 'B ', 'F '))
 
 def digest(tag, lines):
     """the digest the harness and the driver print, recomputed from expanded token lines"""
